@@ -172,7 +172,7 @@ func TestC07_SenderConformance(t *testing.T) {
 
 		rs, err := newRawServer()
 		if err != nil {
-			rt.Fatalf("infrastructure: %v", err)
+			ev.InfraSkip(rt, c07, "%v", err)
 		}
 		defer rs.close()
 		log := netfx.NewLogger()
@@ -181,21 +181,21 @@ func TestC07_SenderConformance(t *testing.T) {
 		opts.ChannelWindowSize = units.Bytes(w)
 		conn, st := mpx.Connect(ctxNone(), rs.ln.Addr().String(), log, opts)
 		if !st.OK() {
-			rt.Fatalf("infrastructure: connect: %v", st)
+			ev.InfraSkip(rt, c07, "connect: %v", st)
 		}
 		defer conn.Close()
 		var peer *netfx.RawPeer
 		select {
 		case peer = <-rs.peers:
 		case err := <-rs.errc:
-			rt.Fatalf("infrastructure: raw handshake: %v", err)
+			ev.InfraSkip(rt, c07, "raw handshake: %v", err)
 		case <-time.After(boundArrive()):
-			rt.Fatalf("infrastructure: no raw peer")
+			ev.InfraSkip(rt, c07, "no raw peer")
 		}
 		defer peer.Close()
 		ch, st := conn.Channel(ctxNone())
 		if !st.OK() {
-			rt.Fatalf("infrastructure: channel: %v", st)
+			ev.InfraSkip(rt, c07, "channel: %v", st)
 		}
 		defer ch.Free()
 
@@ -480,18 +480,18 @@ func TestC07_ReceiverConformance(t *testing.T) {
 		opts.Compression = false
 		srv, err := netfx.StartServer(handler, log, opts)
 		if err != nil {
-			rt.Fatalf("infrastructure: %v", err)
+			ev.InfraSkip(rt, c07, "%v", err)
 		}
 		defer srv.Stop()
 		defer close(marks)
 		defer close(cmds)
 		peer, err := netfx.DialRaw(srv.Addr)
 		if err != nil {
-			rt.Fatalf("infrastructure: %v", err)
+			ev.InfraSkip(rt, c07, "%v", err)
 		}
 		defer peer.Close()
 		if _, err := peer.ClientHandshake(false); err != nil {
-			rt.Fatalf("infrastructure: handshake: %v", err)
+			ev.InfraSkip(rt, c07, "handshake: %v", err)
 		}
 		idA, idB := netfx.MakeID(1), netfx.MakeID(2)
 		pa := make([]byte, openSize)
